@@ -499,6 +499,10 @@ def fix_unused_and_missing_imports(
                 continue
             try:
                 transformer.add_import(imp_to_add, lineno)
+            except ImportAlreadyExistsError:
+                # E.g. "import os; del os; os": the name is unbound where it
+                # is read although the chosen block already imports it.
+                continue
             except ImportConflictError:
                 logger.error("%s: not adding %r: its name is already bound "
                              "by another import", filename,
